@@ -2,7 +2,6 @@
 From Coq Require Import ZArith QArith Reals Lra List Bool Lia Arith.
 From PAV Require Import Base.NumOps Base.Check Model.C16 Proofs.C16.
 Import ListNotations.
-Local Notation RO := ROps.
 
 (* ---- frame: a write to p leaves the status of an independent target q as it was ---- *)
 Section Frame.
@@ -36,6 +35,10 @@ Section Frame.
   Qed.
 End Frame.
 
+Section ImagingValues.
+Context {O : NumOps} (L : lawful O).
+Local Notation RO := O.
+
 (* ---- reading a path that holds the one-HDU content written for [a] ---- *)
 Lemma Array2D_read_written flip (fs' : fitsfs (T RO) (list (T RO))) (a : @array2d RO) p sc k :
   lookup (files fs') p = Some [Array2D_hdu_for_output flip a] -> sole_index k = true ->
@@ -47,7 +50,7 @@ Lemma Array2D_read_written flip (fs' : fitsfs (T RO) (list (T RO))) (a : @array2
     /\ a_scales a' = sc.
 Proof.
   intros Hl Hk. unfold Array2D_hdu_for_output in Hl.
-  destruct (Array2D_no_mask_native (Array2D_native a) sc) as [a' [Ha' [Hn [Hm Hs]]]].
+  destruct (Array2D_no_mask_native L (Array2D_native a) sc) as [a' [Ha' [Hn [Hm Hs]]]].
   exists a'. split; [|auto].
   unfold Array2D_from_fits.
   destruct (via_fits_written_2d flip fs' p _ _ k Hl) as [-> ->].
@@ -68,8 +71,8 @@ Lemma no_mask_slim (v : list (list (T RO))) sc a :
 Proof.
   unfold Array2D_no_mask, Array2D_new. fold (all_false2 v). rewrite same_len2_all_false. intros H. injection H as <-.
   cbn [a_slim a_mask a_scales]. repeat split. unfold slim_from.
-  change (fun (v : T RO) (m : bool) => mul RO v (tofloat (negb m))) with maskmul.
-  now rewrite map2_maskmul_slim, slim_all_false.
+  change (fun (v : T RO) (m : bool) => mul RO v (tofloat (negb m))) with (@maskmul RO).
+  now rewrite (map2_maskmul_slim L), slim_all_false.
 Qed.
 Lemma all_false2_map {A B} (f : A -> B) (v : list (list A)) : all_false2 (map (map f) v) = all_false2 v.
 Proof.
@@ -97,7 +100,7 @@ Qed.
 Lemma div_by_one_rows (v : list (list (T RO))) : map (map (fun x => div RO x (@one RO))) v = v.
 Proof.
   rewrite <- (map_id v) at 2. apply map_ext. intros r. rewrite <- (map_id r) at 2. apply map_ext. intros x.
-  unfold one. cbn. field.
+  apply (law_div_one O L).
 Qed.
 
 Lemma indep_neq p q : indep p q = true -> p <> q.
@@ -149,7 +152,7 @@ Proof.
   destruct (Array2D_read_written flip fs3 data pd sc 0%Z Ld eq_refl) as [d [Rd [_ [Nd [_ Sd]]]]].
   destruct (Array2D_read_written flip fs3 noise pn sc 0%Z L3 eq_refl) as [n [Rn [An [Nn [_ Sn]]]]].
   destruct (Array2D_read_written flip fs3 psf pp sc 0%Z Lp eq_refl) as [k0 [Rk [_ [Nk [_ Sk]]]]].
-  destruct (Array2D_no_mask_native (Array2D_native k0) (a_scales k0)) as [k1 [Ak1 _]].
+  destruct (Array2D_no_mask_native L (Array2D_native k0) (a_scales k0)) as [k1 [Ak1 _]].
   exists fs3, d, n, (Kernel2D_new k1 true). split; [reflexivity|]. split.
   - unfold Imaging_from_fits, Kernel2D_from_fits. rewrite Rd, Rn, Rk. cbn [fbind fst].
     unfold header_obj_from. rewrite (hdu_at_written fs3 pp _ 0%Z Lp). cbn [sole_index Z.eqb orb fbind].
@@ -180,6 +183,9 @@ Proof.
   exists fs3, d, n, k. rewrite Hsum, div_by_one_rows in H7. auto 10.
 Qed.
 
+End ImagingValues.
+
+Local Notation RO := ROps.
 (* non-vacuity of the value hypotheses of the Imaging statements: a positive noise map, a PSF summing to one *)
 Lemma imaging_value_hyps_satisfiable :
   let noise := @mkarr2 RO [1; 2; 4]%R [[false; false; false]] (1, 1)%R in
